@@ -131,4 +131,19 @@ PROPS = {
         "thorough": {"runs": [{"test": "^TestC07$", "shards": 16, "checks": 14000, "timeout": 3400},
                               {"fuzz": "^FuzzC07$", "test": "FuzzC07", "fuzztime": "180s", "timeout": 600, "group": 1, "weight": 16}]},
     },
+    "C08": {
+        "title": "Downloads deliver exactly the file's bytes",
+        "level": "exploration",
+        "rule": "rapid-generated (Mac-Roman-representable file name with extension, content size from boundary set {0,1,511..513,4095..4097,"
+                "32767..32769,65535..65537} or uniform up to 256 KiB quick / 8 MiB thorough, optional stored info fork with comment, optional "
+                "stored resource fork, mode plain / resume at offset k in {0,1,size-1,size,uniform} / preview, in root or sub-folder); request "
+                "through the control connection, transfer through the production transfer loop; oracle = reference client: reply field 207 == "
+                "size-k, field 108 == header+size-k (no stored resource fork) or == size (preview), stream = strictly parsed FILP/INFO/DATA "
+                "header + exactly content[k:] + (resource fork | nothing | empty MACR header); non-trivial = size>0 and (k>0 or a fork is "
+                "stored or size>32 KiB); distinct = hash(name, content, mode, k, forks)",
+        "assumptions": ["the empty 16-byte MACR trailer mobius appends when no resource fork is stored is tolerated (DESIGN C08 interpretation note)",
+                        "the encoding of the name inside the flattened-file header is not asserted (not part of the statement)"],
+        "quick": {"runs": [{"test": "^TestC08$", "shards": 16, "checks": 400, "timeout": 600}]},
+        "thorough": {"runs": [{"test": "^TestC08$", "shards": 16, "checks": 6000, "timeout": 3400}]},
+    },
 }
